@@ -921,6 +921,15 @@ func pureHelperPropagates(fn *ssa.Function, pi int, depth int) bool {
 				if val := x.Value(); val != nil {
 					visit(val)
 				}
+				// a library call that also takes a local object (sb.WriteString(v), buf.Write(v)): the value flows
+				// into that object, and what is later read from it (sb.String()) derives from the value
+				if callee := x.Common().StaticCallee(); callee == nil || !core.IsRepoPkg(core.FnPkgPath(callee)) {
+					for _, a := range x.Common().Args {
+						if al, ok := a.(*ssa.Alloc); ok && a != v {
+							visit(al)
+						}
+					}
+				}
 			case ssa.Value:
 				visit(x)
 			}
